@@ -1,6 +1,8 @@
 --------------------------- MODULE StreamBuilderMC ---------------------------
 EXTENDS StreamBuilder
-MCPalette == {[bs |-> 32, bytes |-> 11], [bs |-> 64, bytes |-> 75], [bs |-> 17, bytes |-> 30]}
+MCPalette == {[bs |-> 32, bytes |-> 11, var |-> FALSE, num |-> 0], [bs |-> 64, bytes |-> 75, var |-> FALSE, num |-> 1],
+              [bs |-> 17, bytes |-> 30, var |-> FALSE, num |-> 2], [bs |-> 32, bytes |-> 12, var |-> TRUE, num |-> 0],
+              [bs |-> 64, bytes |-> 76, var |-> TRUE, num |-> 32]}
 MCMetaKinds == {[tag |-> 4, len |-> 0], [tag |-> 126, len |-> 5]}
 MCSizeArgs == {0, 16, 64, 40000, BIG}
 =============================================================================
